@@ -23,6 +23,7 @@ RULE = (
     "critical alphabet, partition into 1..5 chunks with empty chunks forced every 3rd case, random reduction schedule = "
     "random permutation + random binary parenthesisation). distinct = digest(spec, stream, partition, schedule); "
     "non-trivial = quantity-bearing tree, >=2 chunks, >=1 positive-weight record, final comparison evaluated"
+    ' Partials are built fresh, from zero(), via increment, from a key-permuted spec, or reloaded from sort_keys JSON.'
 )
 ASSUMPTIONS = [
     "reference model as in C02; either neighbouring bin accepted inside an edge's rounding band",
